@@ -40,6 +40,8 @@ LET: dict = {
     # near misses of the index rules: two indexed axes (int + array, strided slice + array), unique data without the flag
     'X23i': {'k': 'index', 'idx': [0, {'arr': [1, 1, 2]}], 's': [2, 3], 'tuple': True},
     'X43s': {'k': 'index', 'idx': [{'slice': [None, None, 2]}, {'arr': [0, 2, 2]}], 's': [4, 3], 'tuple': True},
+    'X23es': {'k': 'index', 'idx': ['...', {'slice': [0, 2, None]}], 's': [2, 3], 'tuple': True},  # unique by inference
+    'X23ie': {'k': 'index', 'idx': [1, '...'], 's': [2, 3], 'tuple': True},
     'X3nu': {'k': 'index', 'idx': [{'arr': [2, 0]}], 's': [3]},
     'P3': {'k': 'pack', 'mask': [True, False, True], 's': [3]},
     # axes
@@ -50,6 +52,10 @@ LET: dict = {
     'Mp01': {'k': 'moveaxis', 'src': 0, 'dst': 1, 's': {'list': [[2, 3], [2, 3, 2]]}},
     'Mpm10': {'k': 'moveaxis', 'src': -1, 'dst': 0, 's': {'list': [[3, 2], [3, 2, 2]]}},
     'Mp10': {'k': 'moveaxis', 'src': 1, 'dst': 0, 's': {'list': [[3, 2], [3, 2, 2]]}},
+    # multi-axis moves: a true inverse pair and a pair using the same axis sets with a crossed pairing
+    'Mx1': {'k': 'moveaxis', 'src': [0, 1], 'dst': [1, 2], 's': [2, 3, 2]},
+    'Mx1i': {'k': 'moveaxis', 'src': [1, 2], 'dst': [0, 1], 's': [2, 2, 3]},
+    'Mx2': {'k': 'moveaxis', 'src': [1, 2], 'dst': [1, 0], 's': [2, 2, 3]},
     'M23b': {'k': 'moveaxis', 'src': [0], 'dst': [-1], 's': [2, 3]},  # same map as M23, other tuple
     'Sh23b': {'k': 'reshape', 'shape': [3, 2], 's': [2, 3]},  # equal to Sh23 but a distinct object
     'R23': {'k': 'ravel', 's': [2, 3]},
@@ -81,6 +87,8 @@ LET: dict = {
     'X2aT': {'k': 'expr', 'e': {'T': 'X2a'}},
     'X23T': {'k': 'expr', 'e': {'T': 'X23'}},
     'X23iT': {'k': 'expr', 'e': {'T': 'X23i'}},
+    'X23esT': {'k': 'expr', 'e': {'T': 'X23es'}},
+    'X23ieT': {'k': 'expr', 'e': {'T': 'X23ie'}},
     'X43sT': {'k': 'expr', 'e': {'T': 'X43s'}},
     'X3nuT': {'k': 'expr', 'e': {'T': 'X3nu'}},
     'Sh23bT': {'k': 'expr', 'e': {'T': 'Sh23b'}},
@@ -260,6 +268,10 @@ PATTERNS = {
     'reshapeT-reshape': ['Sh23T', 'Sh23'],
     'ravelT-ravel': ['R23T', 'R23'],
     'moveaxis-pair': ['M32', 'M23'],
+    'moveaxis-multi-pair': ['Mx1i', 'Mx1'],
+    'near-moveaxis-crossed-pairing': ['Mx2', 'Mx1'],
+    'index-indexT-ellipsis-slice': ['X23es', 'X23esT'],
+    'index-indexT-int-ellipsis': ['X23ie', 'X23ieT'],
     'moveaxis-pair2': ['M23', 'M32'],
     'blockdiag-rot-rotT': ['BDq', 'BDqT'],
     'blockdiag-moveaxis-cancel': ['BDmI', 'BDm'],
